@@ -34,6 +34,7 @@ func DebugRun(p *core.Prog, rel, recv, name string) {
 // DebugPush prints the abstract paths of Board.PushMove for one move kind.
 func DebugPush(p *core.Prog, kind string) {
 	c := &Ctx{P: p, R: core.NewRun("dbg", "quick", "other")}
+	InstallAliases(c)
 	g := newGameModel(c, "dbg")
 	if g == nil {
 		fmt.Println("model failed", c.R.Obls)
@@ -55,6 +56,7 @@ func DebugPush(p *core.Prog, kind string) {
 // DebugSearch prints the abstract event paths of a search function.
 func DebugSearch(p *core.Prog, rel, recv, name string) {
 	c := &Ctx{P: p, R: core.NewRun("dbg", "quick", "other")}
+	InstallAliases(c)
 	m := newSearchModel(c, "dbg")
 	fn := p.Func(rel, recv, name)
 	if m == nil || fn == nil {
